@@ -93,14 +93,14 @@ Print Assumptions c17_wrap_only_parenthesizes.
 (* Every expression parses: an @(...) token whose legacy text parses to a tree with an intended tree migrates,
    without error, to @ followed by the printed intended tree (parenthesized unless it is a plain context path),
    and that text parses (options DefaultToSelf / URLEncode off). *)
-Theorem c17_parses : forall ctxmap raw_dates printable s e t,
+Theorem c17_parses : forall ctxmap raw_dates printable isln lower_rune s e t following,
   text_eqb s t_empty_literal = false ->
   parse1 s = Some e -> mt ctxmap raw_dates e = Some t ->
-  exists body, migrate_seg ctxmap raw_dates false false printable (SExpr s) = (64 :: body, false) /\
+  exists body, migrate_seg ctxmap raw_dates false false printable isln lower_rune (SExpr s) following = (64 :: body, false) /\
     (body = print3 t \/ body = 40 :: print3 t ++ [41]) /\ parse3 (print3 t) = Some t.
 Proof.
-  exact (fun ctxmap raw_dates printable s e t =>
-           expr_parses ctxmap raw_dates false false printable s e t eq_refl eq_refl).
+  exact (fun ctxmap raw_dates printable isln lower_rune s e t following =>
+           expr_parses ctxmap raw_dates false false printable isln lower_rune s e t following eq_refl eq_refl).
 Qed.
 Print Assumptions c17_parses.
 
@@ -129,20 +129,22 @@ Proof. exact literals_refuted_newline_quote. Qed.
 Print Assumptions c17_literals_refuted_without_backslash.
 
 (* Text outside expressions: the migrated template is the concatenation of the per-token outputs, the error
-   flag is the disjunction of the per-token flags, a body token contributes exactly itself; a template
+   flag is the disjunction of the per-token flags (each token is migrated knowing only the body text that follows
+   it, [with_following]), a body token contributes exactly itself; a template
    consisting of body tokens only is unchanged.  (The tokens are those of the template scanner, property C12;
    with SetUnescapeBody(false) an `@@` stays `@@`.) *)
-Theorem c17_body_unchanged : forall ctxmap raw_dates default_to_self url_encode printable segs,
-  fst (migrate_template ctxmap raw_dates default_to_self url_encode printable segs)
-    = concat (map (fun s => fst (migrate_seg ctxmap raw_dates default_to_self url_encode printable s)) segs)
-  /\ snd (migrate_template ctxmap raw_dates default_to_self url_encode printable segs)
-    = existsb (fun s => snd (migrate_seg ctxmap raw_dates default_to_self url_encode printable s)) segs
-  /\ forall t, migrate_seg ctxmap raw_dates default_to_self url_encode printable (SBody t) = (t, false).
+Theorem c17_body_unchanged : forall ctxmap raw_dates default_to_self url_encode printable isln lower_rune segs,
+  let mseg := migrate_seg ctxmap raw_dates default_to_self url_encode printable isln lower_rune in
+  fst (migrate_template ctxmap raw_dates default_to_self url_encode printable isln lower_rune segs)
+    = concat (map (fun p => fst (mseg (fst p) (snd p))) (with_following segs))
+  /\ snd (migrate_template ctxmap raw_dates default_to_self url_encode printable isln lower_rune segs)
+    = existsb (fun p => snd (mseg (fst p) (snd p))) (with_following segs)
+  /\ forall t f, mseg (SBody t) f = (t, false).
 Proof. exact body_unchanged. Qed.
 Print Assumptions c17_body_unchanged.
 
-Theorem c17_body_only : forall ctxmap raw_dates default_to_self url_encode printable ts,
-  migrate_template ctxmap raw_dates default_to_self url_encode printable (map SBody ts) = (concat ts, false).
+Theorem c17_body_only : forall ctxmap raw_dates default_to_self url_encode printable isln lower_rune ts,
+  migrate_template ctxmap raw_dates default_to_self url_encode printable isln lower_rune (map SBody ts) = (concat ts, false).
 Proof. exact body_only. Qed.
 Print Assumptions c17_body_only.
 
